@@ -23,7 +23,7 @@ def rawBlock (data R : Bytes) : List RawAmmo × Stop :=
         let q := rawPass (R.drop n.toNat)
         ({ frame := R.take n.toNat, tag := tag } :: q.1, q.2)
 
-theorem rawPass_nil : rawPass [] = ([], .eof) := by rw [rawPass]
+theorem rawPass_nil : rawPass [] = ([], .eof) := by unfold rawPass; rw [rawPassF]
 
 theorem rawPass_line (line R : Bytes) (hline : LF ∉ line) :
     rawPass (line ++ LF :: R) = rawBlock (trimSpace (line ++ [LF])) R := by
@@ -31,23 +31,36 @@ theorem rawPass_line (line R : Bytes) (hline : LF ∉ line) :
   cases hb : line ++ LF :: R with
   | nil => simp at hb
   | cons b r =>
-    rw [rawPass]
+    unfold rawPass
+    rw [rawPassF]
     rw [hb] at hc
     simp only [hc]
-    simp only [Bool.not_true, Bool.false_eq_true, if_false]
+    simp only [Bool.not_true, Bool.false_and, Bool.false_eq_true, if_false, if_true]
     unfold rawBlock
     rfl
 
-/-- whatever follows the last newline is dropped (ReadString returns io.EOF) -/
-theorem rawPass_lastline (line : Bytes) (hline : LF ∉ line) : rawPass line = ([], .eof) := by
+/-- a last line that lacks its newline is read like every other line (ReadString returns it together with io.EOF;
+/repo dbbf16d) -/
+theorem rawPass_lastline' (line : Bytes) (hline : LF ∉ line) (hne : line ≠ []) :
+    rawPass line = rawBlock (trimSpace line) [] := by
   have hc := cut_no_sep LF line hline
   cases hb : line with
-  | nil => exact rawPass_nil
+  | nil => exact absurd hb hne
   | cons b r =>
-    rw [rawPass]
+    unfold rawPass
+    rw [rawPassF]
     rw [hb] at hc
     simp only [hc]
-    simp
+    simp only [Bool.not_true, Bool.and_false, Bool.false_eq_true, if_false]
+    unfold rawBlock
+    rfl
+
+/-- blanks after the last newline are one more blank line -/
+theorem rawPass_lastline (line : Bytes) (hline : LF ∉ line) (hws : allWs line) : rawPass line = ([], .eof) := by
+  by_cases hne : line = []
+  · subst hne; exact rawPass_nil
+  · rw [rawPass_lastline' line hline hne, trimSpace_allWs _ hws]
+    exact rawPass_nil
 
 theorem rawPass_blanks (blanks : List Bytes) (X : Bytes) (hb : blanks.all padOK = true) :
     rawPass (renderBlanks blanks ++ X) = rawPass X := by
@@ -113,7 +126,7 @@ theorem rawPass_renderItems (fnl : Bool) (trail : Bytes) (htrail : padOK trail =
       rawPass (renderItems .raw fnl trail items per) = (expFrames items, .eof)
   | [], per, _, _ => by
     simp only [renderItems]
-    exact rawPass_lastline trail (padOK_noLF htrail)
+    exact rawPass_lastline trail (padOK_noLF htrail) (padOK_allWs htrail)
   | [it], per, hi, hp => by
     have hit : itemOK .raw it = true := by simpa [itemsOK] using hi
     have hl : itemLayOK (per.headD ({} : ItemLay)) = true := by
@@ -140,7 +153,7 @@ theorem rawPass_renderItems (fnl : Bool) (trail : Bytes) (htrail : padOK trail =
       | true =>
         simp only [if_true]
         rw [rawPass_line _ _ hline, List.append_assoc _ _ [LF], htrim, List.append_assoc,
-          rawBlock_frame t fr _ ht hne hn, rawPass_blanks _ _ hlb, rawPass_lastline trail (padOK_noLF htrail)]
+          rawBlock_frame t fr _ ht hne hn, rawPass_blanks _ _ hlb, rawPass_lastline trail (padOK_noLF htrail) (padOK_allWs htrail)]
         rfl
       | false =>
         simp only [Bool.false_eq_true, if_false]
